@@ -984,7 +984,7 @@ def check(ctx):
     tunits = [("tab", names, r) for names in NAME_SETS for r in range(0, R + 1)]
     parts += core.pmap(unit_table, tunits)
     agg = core.merge_all(parts)
-    agg.notes["bound"] = f"vectors len<={N}; tables rows<={R} x cols<=3; comparison operands len<={L}"
+    agg.notes["bound"] = f"vectors len<={N}; tables rows<={R} x cols<=3; comparison operands len 0..{L} (zero-length reached by filter / empty slice / typed empty)"
     agg.notes["exhaustive"] = True
     return agg
 
